@@ -1434,6 +1434,13 @@ def oracle_c10(script: list[list], res: dict, cfg: dict, error_class: Any) -> li
         addressed = ev[0] != 'recv' or ev[1] == cur0
         cause = cause_of(ev, st0, hold) if (cur0 and addressed and st0 in CONNECTED[1:]) else None
         if cause is None:
+            # a well-formed UPDATE on an ESTABLISHED session is no error of any class: whatever NOTIFICATION other than
+            # a cease the API asked for is written in answer to it names an error that did not happen (e.g. 1/2 for a
+            # 5000-octet UPDATE although Extended Message was negotiated)
+            if ev[0] == 'recv' and ev[2] == 'update' and addressed and st0 == 'ESTABLISHED' and not (i < len(apierr) and apierr[i]):
+                for cid, k, _ in writes:
+                    if cid == cur0 and k.startswith('NOTIFICATION ') and not k.startswith('NOTIFICATION 6 '):
+                        bad.append(('unprovoked-notification', f'a well-formed UPDATE in ESTABLISHED is answered with {k}'))
             continue
         words, must_end = cause
         if i < len(apierr) and apierr[i]:
@@ -1675,7 +1682,7 @@ def run_property(ctx: Any, prop: str, fault_weight: float) -> None:
     # Lemmas/SessionCheck.lean) through `session chk`
     pick = rng.randrange(4)
     for k, (script, cfg, origin) in enumerate(systematic_scripts()):
-        if not cfg or set(cfg) <= {'routes', 'hold', 'passive'}:
+        if not cfg or set(cfg) <= {'routes', 'hold', 'passive', 'extended'}:
             for j, extra in enumerate(({'local_as_auto': True}, {'peer_as_auto': True})):
                 if quick and (k + j) % 4 != pick:
                     continue  # a quarter of them per quick run (which quarter: the seed), all of them in thorough
